@@ -206,7 +206,7 @@ def slotOf : Option KeyFormat → FkSlot
   | some .uuid => .uuid
   | _ => .uniqueString
 
-theorem keyListExt_ok (format : Option KeyFormat) (p : String) :
+theorem keyListExt_ok (format : Option KeyFormat) (p : LRPayload) :
     keyListExt format p = .ok (.foreignKey (slotOf format) p) := by
   cases format with
   | none => rfl
@@ -403,10 +403,11 @@ theorem buildSchema_rt (inArray : Bool) (s : Schema) (hwf : schemaWFField inArra
       hj
   | enum d rules lr =>
     simp only [schemaWFField, Bool.and_eq_true] at hwf
-    obtain ⟨hd, hr⟩ := hwf
+    obtain ⟨⟨hd, hr⟩, hf⟩ := hwf
+    obtain ⟨f, hfv, _, _⟩ := mapValues_ok d (lrDefaultFilters lr) hf
     cases rules with
     | none =>
-      simp only [buildField, mapValues, Outcome.ok.injEq] at ha
+      simp only [buildField, mapValues, hfv, Outcome.ok.injEq] at ha
       subst ha
       rcases hvo with hvo | ⟨h1, hvo⟩
       · subst hvo
@@ -417,7 +418,7 @@ theorem buildSchema_rt (inArray : Bool) (s : Schema) (hwf : schemaWFField inArra
       simp only [enumRulesWF, Bool.and_eq_true] at hr
       obtain ⟨a1, ha1, hn1, _⟩ := names_read d hd er.inn hr.1
       obtain ⟨a2, ha2, _, hn2⟩ := names_read d hd er.notIn hr.2
-      simp only [buildField, ha1, ha2, Outcome.ok.injEq] at ha
+      simp only [buildField, ha1, ha2, hfv, Outcome.ok.injEq] at ha
       subst ha
       rcases hvo with hvo | ⟨h1, hvo⟩
       · subst hvo
@@ -434,9 +435,9 @@ theorem schemaWF_of_field (b : Bool) (s : Schema) (h : schemaWFField b s = true)
     | none => rfl
     | some r => simp only [schemaWFField, Bool.and_eq_true] at h; exact h.1.1
   | enum d rules lr =>
-    cases rules with
-    | none => rfl
-    | some r => simp only [schemaWFField, Bool.and_eq_true] at h; exact h.2
+    simp only [schemaWFField, Bool.and_eq_true] at h
+    simp only [schemaWF, Bool.and_eq_true]
+    exact ⟨h.1.2, h.2⟩
   | _ => rfl
 
 def dummyMatcher : Matcher := ⟨fun p x => if p = id62Pattern then id62Shape x else false⟩
@@ -463,6 +464,7 @@ theorem hasItemConstraint_eq (s : Schema) (a : ItemAnnot) (ha : buildField s = .
       subst ha; rfl
   | enum d rules lr =>
     simp only [buildField] at ha
+    split at ha <;> try (simp at ha)
     split at ha <;> simp_all [hasItemConstraint]
     subst ha; rfl
   | string f rules lr => simp only [buildField, Outcome.ok.injEq] at ha; subst ha; cases rules <;> rfl
